@@ -237,8 +237,9 @@ fn run_shard(prop: &str, shard: &str, tier: &str, meta: &Meta) -> ShardResult {
                     total.machinery.push(format!("worker died in group {n} '{label}' from resource exhaustion of the sandbox: {msg}"));
                 } else if reproduced {
                     let (site2, _) = crash_site(&tail2);
+                    let last = tail2.lines().rev().find(|l| !l.trim().is_empty()).unwrap_or("").chars().take(100).collect::<String>();
                     total.total_viol += 1;
-                    total.viols.push(json!({"attrs": {"crash": "1", "site": site2}, "case": {"group_label": label}, "msg": format!("worker process died (exit {:?}) in group {n} '{label}': {msg}", code), "group": n, "shard": shard, "property": prop, "tier": tier}));
+                    total.viols.push(json!({"attrs": {"crash": "1", "site": site2, "stderr": last, "shard": shard}, "case": {"group_label": label}, "msg": format!("worker process died (exit {:?}) in group {n} '{label}': {msg}", code), "group": n, "shard": shard, "property": prop, "tier": tier}));
                 } else {
                     total.machinery.push(format!("worker died in group {n} '{label}' (site {site}: {msg}) but the group passed when re-run alone"));
                 }
@@ -312,6 +313,7 @@ pub fn run(prop: &str, tier: &str) -> i32 {
     let known = load_known();
     let root = verif_root();
     let rdir = format!("{root}/replays/{prop}");
+    let _ = std::fs::remove_dir_all(&rdir);
     let _ = std::fs::create_dir_all(&rdir);
     // classify
     let mut known_hits: BTreeMap<usize, (u64, Value)> = BTreeMap::new();
